@@ -71,8 +71,21 @@ def _depth(db, chk, cs):
                "depth must equal the number of ancestors")
     chk.ob(rule, "children are visited with the node's own (new) depth", rec == [[KID, T.C(-1)]], where, found=[[T.show(x) for x in r] for r in rec], accepted=[["$KID", "-1"]],
            why="passing parent_depth again gives every descendant the same depth")
-    lits = [lit(c.args[1]) for c in ast.walk(fn) if isinstance(c, ast.Call) and H.name_id(c.func) == "_bfs" and len(c.args) == 2 and isinstance(c.args[1], (ast.Constant, ast.UnaryOp))]
-    chk.ob(rule, "every traversal starts at a root with parent depth -2", lits == [-2, -2], where, found=lits, accepted=[-2, -2])
+    # whole-graph mode: every root returned by _get_all_root_indices is entered the same way (its depth becomes -1)
+    rec.clear()
+
+    def hook2(I, name, pos, kw, node):
+        if name.endswith("_get_all_root_indices"):
+            return [IDX]
+        return hook(I, name, pos, kw, node)
+    I2 = Interp(db, call_hook=hook2)
+    runs2 = [r for r in I2.explore(ref, lambda I: {"self": Obj("self", cls=(cs, "CallStackGraph"), attrs={"nodes": nodes(), "root_index": T.P("OTHER_ROOT")}), "root_index": None, "apply_whole_graph": True})
+             if r.raised is None]
+    if len(runs2) != 1:
+        chk.ob(rule, "whole-graph mode: one path", None, where, found=len(runs2))
+    else:
+        nd2 = runs2[0].env["self"].attrs["nodes"][IDX]
+        check_term(chk, rule, "whole-graph mode: every root is entered with parent depth -2 as well (root depth -1)", where, to_term(nd2.attrs.get("depth")), [T.C(-1)])
 
 
 def _height(db, chk, cs):
